@@ -43,6 +43,8 @@ QUICK = [
     ("MC_Trap_term_tstp.cfg", "TERM,TSTP"),
     ("MC_Trap_kill_stop_exit.cfg", "KILL,STOP,EXIT"),
     ("MC_Trap_usr_exit.cfg", "USR1,EXIT"),
+    # every signal starts with a handler installed before the shell (as SEGV/BUS on a real kernel)
+    ("MC_Trap_caught_on_entry.cfg", "INT,USR1"),
 ]
 QUICK_NAMES = {c for c, _ in QUICK}
 # thorough: generated configurations (sigs, with EXIT, history bound)
@@ -69,6 +71,7 @@ CONSTANTS
   WithExit = %s
   MaxH = %d
   UniformInit = %s
+  InitVals = {"D", "I"}
 VIEW view
 INVARIANT Consistent
 INVARIANT EmitState
@@ -306,6 +309,15 @@ def phase2(rep, wd, tier):
             else:
                 raise vlib.ToolError(f"harness shell exited {rc}: {err[-1500:]}")
     not_run = total_progs - start if len(timeouts) >= MAX_TIMEOUTS else 0
+    # real-kernel stage: the programs marked "real" (inherited handler for SEGV = the Rust runtime's)
+    # run on the real OS in the mirror runner; their traces join the same membership check
+    realobs = obs + ".real"
+    _, _, err = vlib.run_harness(PKG, ["shellreal", "--in", progs, "--out", realobs])
+    n_real = json.loads(err.strip().splitlines()[-1])["programs"]
+    with open(obs, "a") as allobs, open(realobs) as f:
+        for line in f:
+            allobs.write(line)
+    os.remove(realobs)
     for t in timeouts:
         rep.violation({"phase": "shell", "fam": t["fam"], "symptom": "timeout", "script": t["script"], "schedule": t["schedule"]},
                       f"whole shell, {t['fam']}: the shell did not return within the time limit",
@@ -339,7 +351,8 @@ def phase2(rep, wd, tier):
             key = {"phase": "shell", "fam": o["fam"], "symptom": _shell_symptom(ob, o["allowed"]) if ob["outcome"] in ("completed", "deadlock") else ob["outcome"],
                    "script": o["script"], "schedule": ob["schedule"]}
             rep.violation(key, f"whole shell, {o['fam']}: observed probe trace not allowed by TrapRun",
-                          {"phase": "shell", "script": o["script"], "init": o["init"], "schedule": ob["schedule"],
+                          {"phase": "shell", "script": o["script"], "init": o["init"], "opts": o.get("opts") or "",
+                           "schedule": ob["schedule"],
                            "observed": ob, "allowed": o["allowed"]})
     vlib.log(f"[p4] whole shell: {n_prog} generated scripts, {st['runs']} runs, {n_obs} distinct observed traces "
              f"checked for membership, {n_bad} not allowed, {n_skip} runs skipped (simulator wait artifact); TLC {r.wall:.1f}s")
@@ -350,6 +363,7 @@ def phase2(rep, wd, tier):
                  f"{not_run} programs not run after that")
     return {"scripts": n_prog, "runs": st["runs"], "distinct_traces_checked": n_obs, "not_allowed": n_bad + len(timeouts),
             "timeouts": len(timeouts), "programs_not_run_after_timeouts": not_run,
+            "programs_also_run_on_the_real_kernel": n_real,
             "runs_skipped_simulator_wait_artifact": n_skip, "families": fams, "generator_cfg": cfg,
             "schedule_exploration": {"dfs_depth": dfs, "cap": cap, "random_per_script": nrand},
             "samples": samples}
@@ -476,6 +490,10 @@ def run(tier):
         "shell blocks (foreground subshell, command substitution, wait); arrival at every other position is "
         "exercised by the shell signalling itself (kill -s SIG $$) at that position",
         "whole shell: on interrupting `wait` the trap action may see either the previous $? or wait's own (> 128)",
+        "whole shell, interactive (-i): run through the shared runner's non-interactive read-eval loop, so SIGINT "
+        "ends the script after the boundary at which pending trap actions run; inherited dispositions are not varied there",
+        "a handler inherited from before the shell started ('C' on entry) is the default disposition for the shell; "
+        "deliveries to such a foreign handler are not exercised (what it does is not the shell's)",
         "TLC 1.8.0 and the JSON community module are trusted",
     ])
     return rc
@@ -507,8 +525,21 @@ def replay(path):
 
 
 def _replay_shell(path, rec):
-    args = ["shell1", "--script", rec["script"], "--init", json.dumps(rec["init"])]
+    args = ["shell1", "--script", rec["script"], "--init", json.dumps(rec["init"]), "--opts", rec.get("opts") or ""]
     sch = rec.get("schedule", "fifo")
+    if sch == "real":
+        wd = vlib.workdir(PID + "-replay")
+        src, dst = os.path.join(wd, "p.ndjson"), os.path.join(wd, "o.ndjson")
+        with open(src, "w") as f:
+            f.write(json.dumps({"fam": "replay", "real": True, "script": rec["script"], "init": rec["init"],
+                                "opts": "", "allowed": rec["allowed"]}) + "\n")
+        vlib.run_harness(PKG, ["shellreal", "--in", src, "--out", dst])
+        ob = next(vlib.read_ndjson(dst))["observed"][0]
+        allowed = {json.dumps({"m": a["m"], "c": a["c"]}, sort_keys=True) for a in rec["allowed"]}
+        ok = ob["outcome"] == "completed" and json.dumps({"m": ob["m"], "c": ob["c"]}, sort_keys=True) in allowed
+        print("observed:", json.dumps({"m": ob["m"], "c": ob["c"], "outcome": ob["outcome"]}))
+        print("accepted" if ok else f"VIOLATION property={PID} replay={path}")
+        return 0 if ok else 1
     m = re.match(r"prefix\[(.*)\]", sch)
     if m:
         args += ["--prefix", m.group(1).replace(" ", "")]
